@@ -293,6 +293,10 @@ def gen_ops(rng, w, n=None, mix=None, bias=None, main_bias=0.35):
     paths = editable_paths(w)
     n = n if n is not None else gen_len(rng)
     ops = []
+    # contents a path has held before (initial content included): some
+    # rewrites restore one of them byte for byte, e.g. a file deleted and
+    # re-created by a config-management run
+    held = {p: [(f['rules'], f['style'])] for p, f in w['files'].items()}
     for _ in range(n):
         k = rng.choices(kinds, cum)[0]
         if k in ('load', 'force', 'check'):
@@ -304,8 +308,15 @@ def gen_ops(rng, w, n=None, mix=None, bias=None, main_bias=0.35):
         p = paths[0] if rng.random() < main_bias else rng.choice(paths)
         op = {'op': k, 'path': p, 'dt': rng.choice(DTS)}
         if k in ('write', 'replace'):
-            op['rules'] = gen_mapping(rng, w, bias=bias)
-            op['style'] = style_for(rng, p)
+            if held.get(p) and rng.random() < 0.25:
+                prev = rng.choice(held[p])
+                op['rules'] = copy.deepcopy(prev[0])
+                op['style'] = prev[1]
+                op['restores'] = True
+            else:
+                op['rules'] = gen_mapping(rng, w, bias=bias)
+                op['style'] = style_for(rng, p)
+            held.setdefault(p, []).append((op['rules'], op['style']))
         elif k == 'empty':
             op['rules'] = {}
             op['style'] = style_for(rng, p)
